@@ -187,6 +187,31 @@ FOCUS_G = {
 }
 ROUND_FOCUS["G"] = FOCUS_G
 
+# round H (ten properties)
+FOCUS_H = {
+ "C02": ["`case`: patterns tried in order with the first match winning, an item with several `|` alternatives, an empty item body (status zero), a `case` inside a loop whose item runs `break` / `continue`",
+         "function definitions: redefining a function while it runs, a function whose body is a subshell or a loop, the status of the definition itself, `return` with a status above 255 or from a nested call"],
+ "C06": ["here-documents: several on one line, a delimiter that is quoted in part, `<<-` with tabs, a here-document inside a command substitution or a function body, an unterminated one at end of input (terminates with an error, no hang)",
+         "printing of words: nested `${a:-${b:+\"c d\"}}`, backquotes containing backslashes and dollars, `$'...'` with escapes, arithmetic expansions containing parentheses and quotes, tildes in assignments"],
+ "C08": ["the data a subshell inherits: functions defined, aliases, options (`set -f`, `-u`, `-C`), positional parameters after `shift`, the values of `$?`, `$!`, `$0`, `$-` on entry",
+         "open files: a descriptor closed or duplicated inside a pipeline element or command substitution stays as it was in the parent; the file offset IS shared (data written by the subshell is visible, the parent's next write goes after it)"],
+ "C09": ["here-documents and here-strings as redirections on built-ins, functions and compound commands: undone afterwards, the temporary descriptor closed, also when the command fails or is not found",
+         "`exec` with redirections only: persists; a failing redirection on `exec` in a non-interactive shell ends the shell, through `command exec` it does not and leaves the table as it was; `exec` redirections inside a function or a loop body"],
+ "C10": ["errexit inside command substitutions and subshells (the option is inherited; a failure inside aborts only that subshell, and the parent then sees a failing command), `set -e` set inside a function",
+         "syntax errors in `eval` / `.` / trap actions: the documented status, what is aborted (the `eval` command is a special built-in: the shell exits; through `command eval` it does not), nothing of the erroneous text runs"],
+ "C11": ["`trap` with several conditions in one command and invalid ones among them; `trap -- action SIG`; numeric condition `0` meaning EXIT; the dispositions actually installed after each",
+         "signals arriving while the shell waits for a foreground child or reads a here-document / command substitution output: the action runs exactly once after the command, `$?` preserved"],
+ "C13": ["`$!` after an asynchronous and-or list or group, `wait $!` twice (the second 127), `wait` for a job by `%n` while job control is off, many short-lived children finishing before `wait` is called",
+         "command substitutions nested three deep and inside pipelines: every child reaped exactly once, no zombie left at the end, no deadlock when inner children write more than a pipe holds"],
+ "C16": ["`unset` of a variable that has a temporary (prefix) instance, a local instance and a global one; `unset -v` versus `unset -f`; `readonly -f`?? (functions) and read-only functions surviving redefinition attempts",
+         "`export` / `readonly` / `typeset` with several operands where one fails part-way (read-only): which of the others took effect; arrays assigned with `a=(...)` to exported and local variables"],
+ "C17": ["alias values containing quotes, `#`, `$(`, or a here-document operator; an alias whose value ends inside a quoted string or with a backslash; substitution results that form a different token together with the following text",
+         "`unalias` followed by use on the next line; `alias` re-defining a name used later in the same multi-line compound command (already parsed: the old meaning stays); aliases in function bodies are substituted at definition time"],
+ "C20": ["`trap -p`, `kill -l` with operands, `wait`/`jobs`/`fg`/`bg` operands that look like options (`-1`, `%-`), `cd -` and `cd --`, `pwd -L -P`, `unset -f -v`, `umask -S 022`",
+         "option-arguments: `read -d`?? does not exist - use `getopts` optstring edge cases (leading `:`, option `:` itself), `ulimit -n` with and without value, `typeset -p -x`, `command -p -v`, `exec -a`?? only if documented; an option-argument that begins with `-`"],
+}
+ROUND_FOCUS["H"] = FOCUS_H
+
 def main():
     rnd, pid = sys.argv[1], sys.argv[2]
     props = {json.loads(l)["id"]: json.loads(l) for l in open("/verif/properties.jsonl")}
